@@ -519,10 +519,24 @@ func runCheck(prop, tier, repo, verif string, verbose, noReplay bool, evOut stri
 		}
 	}
 
+	// an exit that cannot be reached under the contract's precondition is dead code (a defensive check that
+	// never fires), not vacuity, as long as the function has an exit that can be reached
+	liveExit := map[string]bool{}
+	for _, o := range obls {
+		if o.Canary && o.Kind == "canary.exit" && o.Result != "unsat" {
+			liveExit[o.Func] = true
+		}
+	}
+	deadExits := 0
 	for _, o := range obls {
 		solverMs += o.Millis
 		if o.Canary {
 			canaries++
+			if o.Result == "unsat" && o.Kind == "canary.exit" && liveExit[o.Func] {
+				deadExits++
+				fmt.Fprintf(os.Stderr, "note: %s: this exit cannot be reached under the contract's precondition (dead code or a defensive check); the function has other exits that can\n", o.Name)
+				continue
+			}
 			if o.Result == "unsat" {
 				canaryBad++
 				rp := writeReplayFile(verif, prop, o.Name, map[string]any{"obligation": o.Name, "reason": "vacuity canary verified: the assumptions on this path are contradictory", "solver": o.Solver})
@@ -710,6 +724,7 @@ func runCheck(prop, tier, repo, verif string, verbose, noReplay bool, evOut stri
 			"solver_time_s":            float64(solverMs) / 1000,
 			"vacuity_canaries":         canaries,
 			"vacuity_canaries_failed":  canaryBad,
+			"unreachable_exits":        deadExits,
 			"obligation_results":       oblRecords,
 			"integer_semantics":        "mathematical Int with explicit two's-complement wrap per static Go type",
 			"contract_variants":        variantNote,
